@@ -2,6 +2,7 @@ package props
 
 import (
 	"bytes"
+	"encoding/json"
 	"errors"
 	"fmt"
 	"sync"
@@ -21,6 +22,9 @@ type shCase struct {
 	Idx        uint32   `json:"idx"`
 	HT         uint8    `json:"hash_type"`
 	NoTxID     bool     `json:"no_txid"`
+	// ViaJSON (with NoTxID): the input was decoded from a JSON document without a txid, which
+	// leaves an empty, non-nil txid behind instead of a nil one
+	ViaJSON bool `json:"no_txid_via_json,omitempty"`
 }
 
 func shScript(kind int) []byte {
@@ -69,6 +73,17 @@ func shBuild(c shCase) (*bt.Tx, []byte) {
 			// an input that never had its previous txid set
 			ni := &bt.Input{PreviousTxOutIndex: in.PreviousTxOutIndex, SequenceNumber: in.SequenceNumber,
 				PreviousTxSatoshis: in.PreviousTxSatoshis, PreviousTxScript: in.PreviousTxScript, UnlockingScript: in.UnlockingScript}
+			if c.ViaJSON {
+				var ji bt.Input
+				us := ""
+				if in.UnlockingScript != nil {
+					us = in.UnlockingScript.String()
+				}
+				if err := json.Unmarshal([]byte(fmt.Sprintf(`{"unlockingScript":"%s","vout":%d,"sequence":%d}`, us, in.PreviousTxOutIndex, in.SequenceNumber)), &ji); err == nil {
+					ji.PreviousTxSatoshis, ji.PreviousTxScript = in.PreviousTxSatoshis, in.PreviousTxScript
+					ni = &ji
+				}
+			}
 			tx.Inputs[c.Idx] = ni
 		}
 	}
@@ -240,7 +255,7 @@ func shShapes0(thorough bool) []txRecipe {
 
 func init() {
 	p2 := register(&Prop{ID: "C02", Level: "exploration",
-		Rule: "exhaustive product: tx shapes nIn 1..3 x nOut 0..3 (thorough: 1..4 x 0..4) x 3/6 boundary value sets (version, locktime, vout, sequence, spent value, output values in {0,1,max,mid}; plus coinbase-like transactions whose first input spends the null outpoint) x output script length {0,25,253} (thorough: {0,1,25,252,253}) x previous script of the signed input in {empty, 1 byte, contains 0xab, 253 bytes, P2PKH, missing} x previous txid {present, never set} x input index in {0..nIn-1, nIn, nIn+1, 2^32-1} x all 128 hash types with bit 0x40; oracle: preimage byte-identical to the reference FORKID preimage (reference certified on the node's 500 bip143 + 500 legacy vectors at the start of the run), digest = sha256d, errors exactly for missing input/txid/script, ExtendedBytes unchanged; plus hash -> in-place edit -> hash sequences (3/4 shapes x hash-type pairs x index pairs x 20 single edits incl. pointer replacement, swaps, append/remove) whose second hash must be that of the edited transaction. distinct_nontrivial = distinct reference preimages compared",
+		Rule: "exhaustive product: tx shapes nIn 1..3 x nOut 0..3 (thorough: 1..4 x 0..4) x 3/6 boundary value sets (version, locktime, vout, sequence, spent value, output values in {0,1,max,mid}; plus coinbase-like transactions whose first input spends the null outpoint) x output script length {0,25,253} (thorough: {0,1,25,252,253}) x previous script of the signed input in {empty, 1 byte, contains 0xab, 253 bytes, P2PKH, missing} x previous txid {present, never set, empty after decoding the input from JSON} x input index in {0..nIn-1, nIn, nIn+1, 2^32-1} x all 128 hash types with bit 0x40; oracle: preimage byte-identical to the reference FORKID preimage (reference certified on the node's 500 bip143 + 500 legacy vectors at the start of the run), digest = sha256d, errors exactly for missing input/txid/script, ExtendedBytes unchanged; plus hash -> in-place edit -> hash sequences (3/4 shapes x hash-type pairs x index pairs x 20 single edits incl. pointer replacement, swaps, append/remove) whose second hash must be that of the edited transaction. distinct_nontrivial = distinct reference preimages compared",
 	})
 	s2 := NewSpace(p2, "forkid", c02Check)
 	NewSpace(p2, "forkid-seq", shSeqCheck)
@@ -274,6 +289,9 @@ func init() {
 									continue
 								}
 								yield(shCase{R: sh, ScriptKind: sk, Idx: idx, HT: uint8(ht), NoTxID: notx})
+								if notx && ht&0x03 == 1 {
+									yield(shCase{R: sh, ScriptKind: sk, Idx: idx, HT: uint8(ht), NoTxID: true, ViaJSON: true})
+								}
 							}
 						}
 					}
